@@ -1,5 +1,6 @@
 import TakVerif.Props.C07_compose2
 import TakVerif.Proofs.FPATotal
+import TakVerif.Proofs.BotMovesCompose
 
 /-! # C07 / C20 — the rule's scripts on EVERY legal record (work package fpatotal)
 
@@ -29,8 +30,10 @@ default): a script that panics declines (`ok == false`), `Friendly.GetMove` asks
 * `rule_total_declining` – on a record whose moves are placements or slides the whole rule code runs through;
 * `current_thinker_total_declining` – `current_thinker_total` without `C20.RuleTotal`;
 * `callsOK_declining`, `bot_dead_only_by_search_declining`, `bot_never_dead_declining` – `bot_never_dead_guarded` with
-  `RuleOK` replaced by `MovesOK` (every move of the record is a placement or a slide: what `playtak.ParseServer` returns
-  for `P` / `M` lines and what every engine returns that answers from `AllMoves`, `C03.allMoves_onboard`);
+  `RuleOK` replaced by `MovesOK` (every move of the record is a placement or a slide);
+* `movesOK_of_events`, **`bot_never_dead_declining_events`** – `MovesOK` follows from what the events carry (no server line
+  parses to the pass: `playtak.ParseServer` builds placements and slides; the searching player never answers the pass:
+  engines answer from `AllMoves`), so the end-to-end statement has no hypothesis about reachable states left but `ChkOK`;
 * `*_no_panic` – the three records above with the patch: the bot searches;
 * `declining_agrees` – wherever the call before the patch ran through, the patched call does exactly the same: every
   theorem about openings played by the rule (C20, `friendly_move_legal*`) carries over. -/
@@ -413,17 +416,76 @@ theorem bot_never_dead_declining (c : Compose.Conf) (hguard : c.guard = true) (h
   never_dead_of_deadBySearch c hsize S G hS hT secs eng0 h0 evs
     (bot_dead_only_by_search_declining c hguard hrep hdec hfix hsize S secs eng0 evs hchk hmoves)
 
-/-- the full statement: `MovesOK` as a CONSEQUENCE of what the events carry (every move the server's line parses to and
-every answer of the searching player is a placement or a slide).  NOT proved: it needs an invariant of `Bot.step` about
-the moves of the record (`PInv` is about positions only); stated so that the gap is visible. -/
-def movesOK_of_events_statement : Prop :=
-  ∀ (c : Compose.Conf), c.bot.fixed = true → 3 ≤ c.size ∧ c.size ≤ 8 →
-    ∀ (secs : Int) (evs : List (Compose.Ev Move)),
-      (∀ e ∈ evs, match e with
-        | .deliver _ (some m) => MoveShapeOK m
-        | .leave _ m => MoveShapeOK m ∨ m = Bot.zeroMove
-        | _ => True) →
-      MovesOK c stubSearcher (Compose.start c secs ()) evs
+/-- `MovesOK` along a run from any state that satisfies the invariants, when no event carries the pass and the searching
+player never answers it -/
+theorem movesOK_run (c : Compose.Conf) (hsize : 3 ≤ c.size ∧ c.size ≤ 8) (S : Searcher σ χ)
+    (hSP : ∀ x p e m e', S.run x p e = .ok (m, e') → m.type ≠ Facts.mtPass) {p0 : Pos} (evs : List (Compose.Ev χ)) :
+    ∀ (s : Compose.St σ χ), CInv c S (fun _ => True) s → PInv (fun p => p.cfg.size = c.size) p0 s.b → Bot.MInv s.b →
+      (∀ e ∈ evs, Compose.EvNoPass e) → MovesOK c S s evs := by
+  have hA : ∀ (p : Pos) (m : Move) (q : Pos), p.cfg.size = c.size → p.apply c.bot.basis m = .ok q → q.cfg.size = c.size :=
+    fun p m q hp ha => by rw [apply_cfg ha]; exact hp
+  have hz : ∀ (p q : Pos), p.cfg.size = c.size → p.apply c.bot.basis Bot.zeroMove ≠ .ok q :=
+    fun p q hp => zero_rejected c.bot.basis c.size hsize p q hp
+  induction evs with
+  | nil => intro _ _ _ _ _; trivial
+  | cons e es ih =>
+    intro s hC hP hM hev
+    refine ⟨?_, ih _ (cinv_step (A := fun p => p.cfg.size = c.size) (fun _ _ _ _ _ _ _ _ => trivial) hz hP hC e)
+      (pinv_composed_step hA S hP e)
+      (Compose.minv_composed_step hSP hC hM e (hev e (List.mem_cons_self ..)))
+      (fun e' he' => hev e' (List.mem_cons_of_mem _ he'))⟩
+    cases e with
+    | enter k chk => exact fun _ => hM
+    | _ => trivial
+
+/-- **`movesOK_of_events`** — `MovesOK` is a CONSEQUENCE of what the events carry: if every move a server line parses to is
+not the pass (`playtak.ParseServer` builds placements and slides only) and the searching player never answers the pass
+(an engine that answers from `AllMoves`: `C03.allMoves_onboard`; the stub of the harness: what the schedule says), then at
+every point of every run the moves of the bot's record are placements or slides.  (Every move entered the record through
+`Position.Move` — `Bot.apply_ok_shape`: it accepts the pass, placements and slides only —, the zero move is rejected, the
+rule's scripted moves are flat placements or one-square slides: `FPA.getMove_not_pass`.) -/
+theorem movesOK_of_events (c : Compose.Conf) (hsize : 3 ≤ c.size ∧ c.size ≤ 8) (S : Searcher σ χ)
+    (hSP : ∀ x p e m e', S.run x p e = .ok (m, e') → m.type ≠ Facts.mtPass) (secs : Int) (eng0 : σ)
+    (evs : List (Compose.Ev χ)) (hev : ∀ e ∈ evs, Compose.EvNoPass e) :
+    MovesOK c S (Compose.start c secs eng0) evs := by
+  obtain ⟨p0, _, hP⟩ := pinv_startBot c secs hsize
+  refine movesOK_run c hsize S hSP evs _ (cinv_start c S _ secs eng0 trivial) hP ?_ hev
+  intro m hm
+  have : (startBot c secs).moves = [] := by
+    unfold startBot
+    split <;> rfl
+  have hm' : m ∈ (startBot c secs).moves := hm
+  rw [this] at hm'
+  cases hm'
+
+/-- **`bot_never_dead_declining_events`** — the end-to-end form, no hypothesis about reachable states left but the sanity of
+the check engine's verdicts: the tree with `fixes/C07-fpa-script-declines.diff` (and the two earlier fixes), `Friendly` with
+ANY rule or none or `Taktician`, any colour, size 3..8, clock, and EVERY event list in which no server line parses to the
+pass, with a searching player that answers on every `size`×`size` position from every state satisfying its invariant and
+never answers the pass: no thinker goroutine is ever lost.  With `C07.bot_no_panic`: the bot process survives every
+interleaving and every legal record the server can replay. -/
+theorem bot_never_dead_declining_events (c : Compose.Conf) (hguard : c.guard = true) (hrep : c.replay = true)
+    (hdec : c.decline = true) (hfix : c.bot.fixed = true) (hsize : 3 ≤ c.size ∧ c.size ≤ 8)
+    (S : Searcher σ χ) (G : σ → Prop)
+    (hS : ∀ x p e m e', p.cfg.size = c.size → G e → S.run x p e = .ok (m, e') → G e')
+    (hT : ∀ x p e, p.cfg.size = c.size → G e → ∃ r, S.run x p e = .ok r)
+    (hSP : ∀ x p e m e', S.run x p e = .ok (m, e') → m.type ≠ Facts.mtPass)
+    (secs : Int) (eng0 : σ) (h0 : G eng0) (evs : List (Compose.Ev χ))
+    (hchk : ChkOK c S (Compose.start c secs eng0) evs) (hev : ∀ e ∈ evs, Compose.EvNoPass e) :
+    (Compose.run c S (Compose.start c secs eng0) evs).dead = none :=
+  bot_never_dead_declining c hguard hrep hdec hfix hsize S G hS hT secs eng0 h0 evs hchk
+    (movesOK_of_events c hsize S hSP secs eng0 evs hev)
+
+/-- the hypotheses on the searching player are satisfiable: a stub that answers what the schedule says, the schedule's
+answers ranging over the moves that are not the pass -/
+example : ∃ S : Searcher Unit { m : Move // m.type ≠ Facts.mtPass },
+    (∀ x p e m e', S.run x p e = .ok (m, e') → m.type ≠ Facts.mtPass) ∧ (∀ x p e, ∃ r, S.run x p e = .ok r) :=
+  ⟨{ run := fun m _ s => .ok (m.1, s) },
+   fun x _ _ m _ h => by injection h with h; rw [← (Prod.mk.inj h).1]; exact x.2,
+   fun _ _ _ => ⟨_, rfl⟩⟩
+
+/-- … and so are those on the events: the server lines of the double-stack schedule below parse to placements and slides -/
+example : ∀ e ∈ (Ex.dsWallEvs : List (Compose.Ev Move)), Compose.EvNoPass e := by decide +kernel
 
 /-! ## the three records with the patch -/
 
